@@ -549,7 +549,10 @@ def anchor_names():
 
 
 def write_known_functions(prog):
-    names = sorted({f.short for f in prog.fns.values() if not f.parent})
+    # from the program as extracted: a new helper with a single caller has already been spliced into that caller in
+    # `prog` (normalise) and would never be recorded
+    raw = Program(prog.facts_dir)
+    names = sorted({f.short for f in raw.fns.values() if not f.parent})
     with open(KNOWN_FUNCTIONS, 'w') as fh:
         fh.write('\n'.join(names) + '\n')
     return len(names)
